@@ -15,6 +15,7 @@ import (
 	"fmt"
 	"io"
 	"net"
+	"runtime"
 	"sort"
 	"strings"
 	"sync"
@@ -238,6 +239,9 @@ func ckTerm(k int, encIn [][]byte, decIn [][]byte) string {
 			e = append(e, hlib.Pair(hlib.ZList(b), hlib.Some(hlib.ZList(snappy.Encode(nil, b)))))
 		}
 		for _, w := range decIn {
+			if !declaredOK(kSnappy, w) {
+				continue
+			}
 			out, err := snappy.Decode(nil, w)
 			d = append(d, hlib.Pair(hlib.ZList(w), optB(out, err == nil)))
 		}
@@ -253,7 +257,7 @@ func ckTerm(k int, encIn [][]byte, decIn [][]byte) string {
 				continue
 			}
 			n := int(binary.BigEndian.Uint32(w))
-			if n == 0 || n > 1<<26 {
+			if n == 0 || !declaredOK(kLz4, w) {
 				continue
 			}
 			out, ok := rawLz4Dec(w[4:], n)
@@ -461,18 +465,32 @@ func corrupt(r *hlib.Rng, z []byte) []byte {
 	return out
 }
 
-// tame keeps the uncompressed length a (corrupted) compressed body declares below 16 MiB, so that
-// neither the driver nor the table computation allocates gigabytes for a 6-byte input.
-func tame(k int, w []byte) []byte {
+// maxDeclared caps the uncompressed length a body fed to the real Decode may declare: both Decodes allocate
+// the declared length before looking at the block (observation reported in the evidence, see below), so
+// without a cap a corrupted 6-byte body would make the harness allocate 4 GiB.
+const maxDeclared = 1 << 26
+
+func declaredOK(k int, w []byte) bool {
 	switch k {
 	case kLz4:
-		if len(w) >= 4 {
-			w[0] = 0
-		}
+		return len(w) < 4 || binary.BigEndian.Uint32(w) <= maxDeclared
 	case kSnappy:
-		if dl, err := snappy.DecodedLen(w); len(w) > 0 && (err != nil || dl > 1<<24) {
-			w[0] &= 0x7f
-		}
+		dl, err := snappy.DecodedLen(w)
+		return err != nil || dl <= maxDeclared
+	}
+	return true
+}
+
+// tame brings the declared length of a (corrupted) compressed body under maxDeclared.
+func tame(k int, w []byte) []byte {
+	if declaredOK(k, w) {
+		return w
+	}
+	switch k {
+	case kLz4:
+		w[0], w[1] = 0, w[1]&0x03
+	case kSnappy:
+		w[0] &= 0x7f
 	}
 	return w
 }
@@ -1234,11 +1252,195 @@ func main() {
 		}
 		o.Extra["lz4_prefix_witness_rejected"] = derr != nil && err != nil
 	}
+	// the witness of the open finding lz4-offset-zero-accepted (Refuted.lz4_offset_zero_rejected_by_format)
+	{
+		w := append([]byte{0, 0, 0, 60, 0x1f, 0x8e, 0, 0, 0x12, 0x00, 0x02, 0, 0, 0x02, 0x00, 0xe0}, bytes.Repeat([]byte{0x8e}, 14)...)
+		out, derr, pan := safeDecode(glz4.LZ4Compressor{}, w)
+		idx := o.Case("lz4-offset-zero-witness", true, fmt.Sprintf("CLz4Invalid %s", hlib.ZList(w)))
+		if pan != nil {
+			violate(idx, "decode-panics", "", fmt.Sprintf("lz4 Decode(% x) panicked: %v", w, pan))
+		} else if derr == nil {
+			violate(idx, "lz4-invalid-block-accepted", "lz4-offset-zero-accepted", fmt.Sprintf("lz4 body % x has a match with offset 0 and is accepted as % x", w, out))
+		}
+		o.Extra["lz4_offset_zero_witness_accepted"] = derr == nil && pan == nil
+	}
 	for _, short := range [][]byte{{}, {0}, {0, 0}, {0, 0, 0}, {1, 2, 3}} {
 		dec, derr := glz4.LZ4Compressor{}.Decode(short)
 		idx := o.Case("lz4-decode-short", true, fmt.Sprintf("CLz4Dec %s None %s", hlib.ZList(short), optB(dec, derr == nil)))
 		if derr == nil {
 			violate(idx, "lz4-short-accepted", "", fmt.Sprintf("Decode(%x) = %x without error", short, dec))
+		}
+	}
+
+	// -- corruption stream: single-byte corruptions of real lz4 bodies against the LZ4 format decoder of Spec.v -----------------------------
+	{
+		nb := 6
+		perBody := 40
+		if o.Tier == "thorough" {
+			nb, perBody = 30, 1<<30 // every position
+		}
+		for i := 0; i < nb; i++ {
+			body := genBody(r, maxBody)
+			if len(body) < 2 {
+				body = []byte("abcabcabcabcabcabcabcabcabcabcabc")
+			}
+			enc, _ := glz4.LZ4Compressor{}.Encode(body)
+			step := 1
+			if len(enc) > perBody {
+				step = len(enc)/perBody + 1
+			}
+			for pos := i % step; pos < len(enc); pos += step {
+				for _, val := range []byte{enc[pos] ^ 0x01, enc[pos] ^ 0x80, enc[pos] + 1, 0x00, 0xff, enc[pos] ^ 0x10} {
+					if val == enc[pos] {
+						continue
+					}
+					if !(o.Tier == "thorough") && r.Chance(50) {
+						continue
+					}
+					data := append([]byte{}, enc...)
+					data[pos] = val
+					if !declaredOK(kLz4, data) {
+						continue
+					}
+					out, derr, pan := safeDecode(glz4.LZ4Compressor{}, data)
+					if derr == nil && pan == nil && len(data) > 4 && binary.BigEndian.Uint32(data) != 0 {
+						if _, reason := specLz4(data[4:]); reason == "offset-zero" {
+							// known finding lz4-offset-zero-accepted: the library accepts a match offset of 0, which the
+							// format declares invalid; the model side checks that the format decoder does reject the bytes
+							idx := o.Case("lz4-corrupt-offset-zero", true, fmt.Sprintf("CLz4Invalid %s", hlib.ZList(data)))
+							violate(idx, "lz4-invalid-block-accepted", "lz4-offset-zero-accepted", fmt.Sprintf("lz4 body % x has a match with offset 0 and is accepted as % x", data[:min(len(data), 40)], out[:min(len(out), 40)]))
+							continue
+						}
+					}
+					idx := o.Case("lz4-corrupt", true, fmt.Sprintf("CLz4Corrupt %s %s", hlib.ZList(data), optB(out, derr == nil && pan == nil)))
+					if pan != nil {
+						violate(idx, "decode-panics", "", fmt.Sprintf("lz4 Decode(% x) panicked: %v", data, pan))
+					}
+					if derr == nil && pan == nil {
+						declaredLengthMonitor(o, idx, kLz4, data, out)
+					}
+				}
+			}
+		}
+		// snappy: an accepted corrupted body has the declared length, nothing panics (the algorithm itself is the library's)
+		for i := 0; i < nb; i++ {
+			body := genBody(r, maxBody)
+			enc, _ := gocql.SnappyCompressor{}.Encode(body)
+			for pos := 0; pos < len(enc); pos++ {
+				if !(o.Tier == "thorough") && !r.Chance(60) {
+					continue
+				}
+				data := append([]byte{}, enc...)
+				data[pos] ^= byte(1 << uint(r.Intn(8)))
+				if !declaredOK(kSnappy, data) {
+					continue
+				}
+				out, derr, pan := safeDecode(gocql.SnappyCompressor{}, data)
+				l, e := snappy.Decode(nil, data)
+				lib, libok := l, e == nil
+				idx := o.Case("snappy-corrupt", true, fmt.Sprintf("CSnappyDec %s %s %s", hlib.ZList(data), optB(lib, libok), optB(out, derr == nil && pan == nil)))
+				if pan != nil {
+					violate(idx, "decode-panics", "", fmt.Sprintf("snappy Decode(% x) panicked: %v", data, pan))
+				}
+				if derr == nil && pan == nil {
+					declaredLengthMonitor(o, idx, kSnappy, data, out)
+				}
+			}
+		}
+	}
+
+	// -- snappy's length header and the allocation guards ---------------------------------------------------------------------------------
+	{
+		maxAlloc := map[int]uint64{}
+		var heads [][]byte
+		for _, v := range []uint64{0, 1, 127, 128, 300, 16383, 16384, 1 << 21, 1<<28 - 1, 1 << 28, 1<<32 - 1, 1 << 32, 1<<35 + 5, 1<<63 - 1, 1 << 63, 1<<64 - 1} {
+			var b [binary.MaxVarintLen64]byte
+			heads = append(heads, append([]byte{}, b[:binary.PutUvarint(b[:], v)]...))
+		}
+		heads = append(heads, []byte{}, []byte{0x80}, []byte{0xff, 0xff}, bytes.Repeat([]byte{0x80}, 9), bytes.Repeat([]byte{0x80}, 10), bytes.Repeat([]byte{0xff}, 11),
+			append(bytes.Repeat([]byte{0xff}, 9), 0x01), append(bytes.Repeat([]byte{0xff}, 9), 0x02), append(bytes.Repeat([]byte{0x80}, 10), 0x01), []byte{0x80, 0x00}, []byte{0xff, 0x00, 0x00})
+		for i := 0; i < n/2; i++ {
+			heads = append(heads, r.Bytes(1+r.Intn(11)))
+		}
+		for _, h := range heads {
+			for _, tail := range [][]byte{nil, {0x00, 'a'}, r.Bytes(r.Intn(6))} {
+				src := append(append([]byte{}, h...), tail...)
+				dl, err := snappy.DecodedLen(src)
+				term := "None"
+				if err == nil {
+					term = hlib.Some(hlib.Z(int64(dl)))
+				}
+				o.Case("snappy-decoded-len", len(src) > 0, fmt.Sprintf("CSnappyLen %s %s", hlib.ZList(src), term))
+				// bodies that declare far more than they can hold: an error; the allocation they cause is measured
+				// (an observation, reported in the evidence: both Decodes allocate the declared length first)
+				for _, kk := range []int{kSnappy, kLz4} {
+					data := src
+					if kk == kLz4 {
+						data = append([]byte{byte(r.Pick(0, 1, 3)), byte(r.U64()), byte(r.U64()), byte(r.U64())}, tail...)
+					}
+					if !declaredOK(kk, data) {
+						continue
+					}
+					var lib []byte
+					libok := false
+					if kk == kSnappy {
+						l, e := snappy.Decode(nil, data)
+						lib, libok = l, e == nil
+					}
+					if kk == kLz4 && len(data) >= 4 && binary.BigEndian.Uint32(data) != 0 {
+						lib, libok = rawLz4Dec(data[4:], int(binary.BigEndian.Uint32(data)))
+					}
+					var m0, m1 runtime.MemStats
+					runtime.ReadMemStats(&m0)
+					out, derr, pan := safeDecode(compressorOf(kk), data)
+					runtime.ReadMemStats(&m1)
+					okk := derr == nil && pan == nil
+					var idx int
+					if kk == kSnappy {
+						idx = o.Case("snappy-declared", true, fmt.Sprintf("CSnappyDec %s %s %s", hlib.ZList(data), optB(lib, libok), optB(out, okk)))
+					} else {
+						idx = o.Case("lz4-declared", true, fmt.Sprintf("CLz4Dec %s %s %s", hlib.ZList(data), optB(lib, libok), optB(out, okk)))
+					}
+					if pan != nil {
+						violate(idx, "decode-panics", "", fmt.Sprintf("%s Decode(% x) panicked: %v", kindName[kk], data, pan))
+					}
+					if okk {
+						declaredLengthMonitor(o, idx, kk, data, out)
+					}
+					if alloc := m1.TotalAlloc - m0.TotalAlloc; alloc > maxAlloc[kk] {
+						maxAlloc[kk] = alloc
+						o.Extra["decode_allocation_observed_"+kindName[kk]] = fmt.Sprintf("Decode of a %d-byte body allocated %d bytes (declared lengths fed to Decode are capped at %d by the harness)", len(data), alloc, maxDeclared)
+					}
+				}
+			}
+		}
+	}
+
+	// -- live traffic: real Sessions against the scripted node -----------------------------------------------------------------------------
+	if o.Only < 0 {
+		protos := []int{4, 3}
+		if o.Tier == "thorough" || o.Search {
+			protos = []int{1, 2, 3, 4, 5}
+		}
+		advs := []struct {
+			key bool
+			l   []string
+		}{{false, nil}, {true, []string{"snappy"}}, {true, []string{"lz4"}}, {true, []string{"snappy", "lz4"}}}
+		ci := 0
+		for _, proto := range protos {
+			for _, k := range []int{kNone, kSnappy, kLz4} {
+				for _, a := range advs {
+					ci++
+					auth := ci%5 == 0
+					if proto == 1 && auth {
+						auth = false // v1 authenticates with CREDENTIALS
+					}
+					if o.Tier != "thorough" && !o.Search && proto == 3 && ci%2 == 0 {
+						continue
+					}
+					runLive(o, k, a.l, a.key, proto, auth)
+				}
+			}
 		}
 	}
 
@@ -1334,6 +1536,7 @@ func main() {
 		o.Extra["codec_law_checks"] = nl
 	}
 
+	liveRecheck(o)
 	o.Finish("From GocqlV Require Import Lib.Base C18.Model C18.Corr.", "C18.Corr.case", "C18.Corr.run")
 }
 
@@ -1341,6 +1544,80 @@ func main() {
 // did not match, a frame it never sent): each costs seconds, so after two the remaining scenarios are
 // skipped (the violations recorded for the first two name the input).
 var connTrouble int
+
+// specLz4: Go mirror of Spec.lz4_block_decode that also says why a block is rejected; used only to recognise
+// the trigger region of the known finding lz4-offset-zero-accepted (the comparison itself is made by Coq).
+func specLz4(src []byte) ([]byte, string) {
+	var out []byte
+	for {
+		if len(src) == 0 {
+			return nil, "no-token"
+		}
+		tok := src[0]
+		src = src[1:]
+		ll := int(tok >> 4)
+		if ll == 15 {
+			for {
+				if len(src) == 0 {
+					return nil, "literal-length"
+				}
+				b := src[0]
+				src = src[1:]
+				ll += int(b)
+				if b != 255 {
+					break
+				}
+			}
+		}
+		if len(src) < ll {
+			return nil, "literals"
+		}
+		out = append(out, src[:ll]...)
+		src = src[ll:]
+		if len(src) == 0 {
+			return out, ""
+		}
+		if len(src) == 1 {
+			return nil, "offset"
+		}
+		off := int(src[0]) | int(src[1])<<8
+		src = src[2:]
+		if off == 0 {
+			return nil, "offset-zero"
+		}
+		if off > len(out) {
+			return nil, "offset-far"
+		}
+		ml := int(tok & 15)
+		if ml == 15 {
+			for {
+				if len(src) == 0 {
+					return nil, "match-length"
+				}
+				b := src[0]
+				src = src[1:]
+				ml += int(b)
+				if b != 255 {
+					break
+				}
+			}
+		}
+		for i := 0; i < ml+4; i++ {
+			out = append(out, out[len(out)-off])
+		}
+	}
+}
+
+// safeDecode calls Decode and recovers a panic.
+func safeDecode(c gocql.Compressor, data []byte) (out []byte, err error, panicked interface{}) {
+	defer func() {
+		if r := recover(); r != nil {
+			panicked = r
+		}
+	}()
+	out, err = c.Decode(data)
+	return
+}
 
 type zeroReader struct{}
 
